@@ -14,6 +14,7 @@
    C01_rollback_order_v0_refuted. *)
 From Coq Require Import List NArith Arith.
 From C01 Require Import Model Proofs Proofs2 Proofs4 Proofs6 Proofs7 CaseDefs Witness.
+From C01 Require Import ModelMulti ProofsM4 ProofsM5 WitnessMulti.
 Import ListNotations.
 
 (* The store always comes back up: no history makes a start-up (or anything else) fail — replay
@@ -235,4 +236,120 @@ Example C01_snapshot_before_lock_refuted :
 Proof.
   destruct w_snapshot_before_lock_breaks as (A & B & C). destruct w_snapshot_inside_fine as (D & E).
   repeat split; assumption.
+Qed.
+
+(* ====================== the store's multi-fraction life (ModelMulti.v) ======================
+
+   Reading aid.  `mrun dec_m dec_d h` executes a multi-fraction history h on a list of fractions, each with
+   its .meta/.docs (byte level, as above) and its ._sdocs/.sdocs/._index/.index (abstract: the documents
+   the file was built from, complete?, fsynced?):
+     MBulk b / MCrashIn b k t kd km / MPower     as HBulk / HCrashIn / HPower, on the writable fraction;
+     MRotate / MRotateCrash j                    FracManager.rotate: .meta, dir fsync, .docs, dir fsync of a fresh
+                                                 fraction; the process dies after j of these operations;
+     MSeal / MSealCrash j torn pl                FracManager.seal of the oldest rotated-out fraction (seal_prog: 11
+                                                 operations from "create ._index" to "unlink .docs"); the process dies
+                                                 after j of them, the next (temp-file write) possibly torn, with or
+                                                 without power loss;
+     MRestart / MRestartCrash cut torn pl        FracManager.Load over all fractions (classification by file set,
+                                                 removal of a sealed fraction's leftover .meta/.docs, replay and
+                                                 truncation of every unsealed fraction, removal of those that hold
+                                                 nothing, sealing of all replayed fractions but the last, a fresh
+                                                 fraction when none is left to write to); the process dies with
+                                                 fraction i at operation cut[i] of its own sequence.
+   `wf_mhist` = every bulk of h decodes to its own non-empty documents, equal IDs carry equal documents;
+   `macked_of h` / `mtried_of h` = the bulks h acknowledges / interrupts; `mfetch` / `msearch` read through
+   FracManager.fracs (sealed fractions through the documents their .index/.sdocs were built from, unsealed
+   ones through the replayed index). Retention is not part of these histories. *)
+
+(* Acknowledged bulks are durable across rotation, sealing and every crash inside them: after ANY
+   multi-fraction history, whenever the store is up, every document of every acknowledged bulk is fetched
+   byte for byte and found by each of its tokens, from whichever form its fraction has. *)
+Theorem C01_acked_durable_multi :
+  forall dec_m dec_d h s mp b d,
+    wf_mhist dec_m dec_d h -> mrun dec_m dec_d h = Ok s -> ms_proc s = Some mp ->
+    In b (macked_of h) -> In d (b_docs b) ->
+    mfetch dec_d (ms_dirs s) mp (d_id d) = Body (d_body d) /\
+    (forall t, In t (d_toks d) -> In (d_id d) (msearch mp t)).
+Proof. exact macked_durable. Qed.
+Print Assumptions C01_acked_durable_multi.
+
+(* Interrupted bulks stay atomic: what a running store shows over ALL its fractions is exactly the
+   documents of a list `dur` of whole bulks, acked <= dur <= acked + interrupted; fetch never fails;
+   search returns nothing else. *)
+Theorem C01_unacked_atomic_multi :
+  forall dec_m dec_d h s mp,
+    wf_mhist dec_m dec_d h -> mrun dec_m dec_d h = Ok s -> ms_proc s = Some mp ->
+    exists dur,
+      incl (macked_of h) dur /\ incl dur (macked_of h ++ mtried_of h) /\
+      (forall b d, In b dur -> In d (b_docs b) ->
+         mfetch dec_d (ms_dirs s) mp (d_id d) = Body (d_body d) /\
+         (forall t, In t (d_toks d) -> In (d_id d) (msearch mp t))) /\
+      (forall id, (forall b d, In b dur -> In d (b_docs b) -> d_id d <> id) ->
+         mfetch dec_d (ms_dirs s) mp id = Absent /\ (forall t, ~ In id (msearch mp t))) /\
+      (forall id, mfetch dec_d (ms_dirs s) mp id <> FetchErr) /\
+      (forall t id, In id (msearch mp t) ->
+         exists b d, In b dur /\ In d (b_docs b) /\ d_id d = id /\ In t (d_toks d)).
+Proof. exact mdurable_char. Qed.
+Print Assumptions C01_unacked_atomic_multi.
+
+(* The start-up never fails, whatever crashed before (no history makes any step fail); it never loses a
+   fraction that holds an acknowledged bulk - every acknowledged document is served by some fraction of
+   FracManager.fracs with its own bytes - and never serves a fraction twice (the crash between the .index
+   rename and the removal of .meta/.docs leaves both forms: the sealed one is served, see
+   C01_multi_nonvacuous). *)
+Theorem C01_restart_total_multi :
+  forall dec_m dec_d h, wf_mhist dec_m dec_d h ->
+    exists s, mrun dec_m dec_d h = Ok s /\
+      forall mp, ms_proc s = Some mp ->
+        NoDup (map fst (mp_fracs mp)) /\
+        (forall b d, In b (macked_of h) -> In d (b_docs b) ->
+           exists i r, In (i, r) (mp_fracs mp) /\ rfetch dec_d (ms_dirs s i) r (d_id d) = Body (d_body d)).
+Proof. exact mrestart_total. Qed.
+Print Assumptions C01_restart_total_multi.
+
+(* Whenever the store is up (in particular after any restart) exactly one entry of FracManager.fracs carries
+   the writable fraction's name, it is an unsealed one without .index, its writers stand at the ends of its
+   .docs/.meta, and the next bulk (any bulk whose meta payload decodes) is APPENDED: the old bytes of both
+   files stay a prefix, and no file of any other fraction changes. *)
+Theorem C01_active_after_restart :
+  forall dec_m dec_d h s mp,
+    wf_mhist dec_m dec_d h -> mrun dec_m dec_d h = Ok s -> ms_proc s = Some mp ->
+    exists p dcs mt,
+      (forall r, In (mp_active mp, r) (mp_fracs mp) <-> r = RActive p) /\
+      fd_docs (ms_dirs s (mp_active mp)) = Some dcs /\ fd_meta (ms_dirs s (mp_active mp)) = Some mt /\
+      fd_ix (ms_dirs s (mp_active mp)) = None /\
+      off_d p = length dcs /\ off_m p = length mt /\
+      (forall b ms, dec_m (b_mpay b) = Some ms ->
+         exists s', mstep dec_m dec_d s (MBulk b) = Ok s' /\
+           fd_docs (ms_dirs s' (mp_active mp)) = Some (dcs ++ dblock b) /\
+           fd_meta (ms_dirs s' (mp_active mp)) = Some (mt ++ mblock b (length dcs)) /\
+           (forall i, i <> mp_active mp -> ms_dirs s' i = ms_dirs s i)).
+Proof. exact mactive_writable. Qed.
+Print Assumptions C01_active_after_restart.
+
+(* ---------- non-vacuity: concrete multi-fraction histories meet the hypotheses; they contain a rotation,
+   a crash inside a seal right after the .index rename (both forms of fraction 0 on disk), a crash inside
+   the start-up that cleans up, a start-up that seals the older of two unsealed fractions and is
+   interrupted inside that seal (torn .index write, power loss), further ingestion and starts ---------- *)
+Example C01_multi_nonvacuous :
+  wf_mhist wdm wdd wm_hist /\ wf_mhist wdm wdd wm_startup_seal /\
+  macked_of wm_hist = [wb1; wb2; wb3] /\
+  (* both forms present after the crash ... *)
+  mfinal_files (mrun wdm wdd wm_both) 0 = [true; true; true; true] /\
+  (* ... the start serves fraction 0 once, sealed, and removes .meta/.docs *)
+  mfinal_fracs (mrun wdm wdd (wm_both ++ [MRestart])) = [(0, true); (1, false)] /\
+  mfinal_files (mrun wdm wdd (wm_both ++ [MRestart])) 0 = [false; false; true; true] /\
+  mfinal_fetch (mrun wdm wdd (wm_both ++ [MRestart])) 1 = Some (Body (d_body wd1)) /\
+  (* the clean-up interrupted, further ingestion, start *)
+  mfinal_fetch (mrun wdm wdd wm_hist) 1 = Some (Body (d_body wd1)) /\
+  mfinal_fetch (mrun wdm wdd wm_hist) 3 = Some (Body (d_body wd3)) /\
+  (* the start-up seals the older unsealed fraction; interrupted, it starts over *)
+  mfinal_fracs (mrun wdm wdd wm_startup_seal) = [(0, true); (1, true); (3, false)] /\
+  mfinal_fetch (mrun wdm wdd wm_startup_seal) 1 = Some (Body (d_body wd1)).
+Proof.
+  destruct wm_acked as (A & _). destruct wm_both_served_once as (B1 & B2 & B3 & _).
+  destruct wm_hist_final as (_ & _ & C1 & _ & C3). destruct wm_startup_seal_final as (_ & D1 & D2 & _).
+  split; [exact wm_wf |]. split; [exact wm_wf2 |]. split; [exact A |]. split; [exact wm_both_forms |].
+  split; [exact B1 |]. split; [exact B2 |]. split; [exact B3 |]. split; [exact C1 |]. split; [exact C3 |].
+  split; [exact D1 | exact D2].
 Qed.
